@@ -109,7 +109,7 @@ impl Drop for Arena {
 }
 
 // ---------------------------------------------------------------- sentinels
-pub const MAX_SLOTS: usize = 40100;
+pub const MAX_SLOTS: usize = 140100;
 static SENT: [u8; MAX_SLOTS * 8 + 16] = [b'~'; MAX_SLOTS * 8 + 16];
 
 pub fn sentinel(i: usize) -> httparse::Header<'static> {
@@ -208,6 +208,10 @@ pub fn entries_of(kind: u8, cfg_is_default: bool) -> &'static [u8] {
 }
 pub fn is_uninit_entry(e: u8) -> bool {
     e == E_CFG_REQ_UNINIT || e == E_REQ_PARSE_UNINIT || e == E_CFG_RESP_UNINIT
+}
+
+pub fn err_id_pub(e: httparse::Error) -> u8 {
+    err_id(e)
 }
 
 fn err_id(e: httparse::Error) -> u8 {
